@@ -52,8 +52,26 @@ func init() {
 		r := c.SharedRng(fmt.Sprintf("cold%d", c.Shard))
 		batch := &c01Case{KClass: "concurrent-cold-start"}
 
+		// in two cold processes out of three every goroutine multiplies the GENERATOR (affine, as Base() gives it, or scaled):
+		// whatever the library builds lazily for its most common operand is built at that instant, by all of them at once
+		gpv := gen.PV{P: oracle.G(), Tag: "G"}
+
 		for g := 0; g < 16; g++ {
-			batch.Conc = append(batch.Conc, c01Case{E: mon.MkElemCase(gen.Fresh(r), gen.DrawRepr(r, false)), K: fmt.Sprintf("%x", gen.Draw(r, oracle.N).X)})
+			pv, rp := gen.Fresh(r), gen.DrawRepr(r, false)
+
+			switch c.Shard % 3 {
+			case 0:
+				pv, rp = gpv, gen.Repr{Kind: "affine", L: big.NewInt(1)}
+			case 1:
+				pv = gpv
+			}
+
+			k := gen.Draw(r, oracle.N).X
+			if g%5 == 4 {
+				k = big.NewInt(0)
+			}
+
+			batch.Conc = append(batch.Conc, c01Case{E: mon.MkElemCase(pv, rp), K: fmt.Sprintf("%x", k)})
 		}
 
 		c01RunConcurrent(c, batch)
